@@ -205,6 +205,7 @@ func reflectTarget(b *tbuf, t *Target, seed, idx uint64, rc *reflCfg) {
 	if rc.thorough {
 		exhaustive(b, t, gt, modelOK)
 	}
+	bytesPass(b, t, gt, modelOK)
 	nilPass(b, t, gt)
 	libPass(b, t, r, en, reached, rc.libCases)
 }
@@ -876,3 +877,55 @@ func exhaustive(b *tbuf, t *Target, gt *getterTable, modelOK bool) {
 }
 
 var _ = sort.Ints
+
+// bytesPass: scripted histories on every bytes-kind field with the two EMPTY bytes values — nil (what
+// NewElement / NewValue / a zero Value hand out) and allocated-empty: presence in a container is about the
+// entry / element, never about the stored slice being nil.
+func bytesPass(b *tbuf, t *Target, gt *getterTable, modelOK bool) {
+	sm := &t.S.Msgs[0]
+	nilB, emptyB := vval.VBlob(false, nil), vval.VBlob(true, nil)
+	for j := range sm.Fields {
+		f := &sm.Fields[j]
+		if f.IsMsg || f.Kind != vschema.Bytes {
+			continue
+		}
+		var script []*rop
+		switch f.Shape {
+		case vschema.Map:
+			k1 := vval.VBits(1)
+			if f.Key == vschema.String {
+				k1 = vval.VBlob(false, []byte("k"))
+			}
+			var k2 *vval.Val
+			if f.Key == vschema.String {
+				k2 = vval.VBlob(false, []byte("other"))
+			} else if f.Key == vschema.Bool {
+				k2 = vval.VBits(1 - k1.N)
+			} else {
+				k2 = vval.VBits(k1.N + 1)
+			}
+			script = []*rop{{name: "mset", j: j, key: k1, val: nilB}, {name: "mhas", j: j, key: k1}, {name: "mget", j: j, key: k1},
+				{name: "mlen", j: j}, {name: "mrange", j: j}, {name: "has", j: j}, {name: "range"}, {name: "enc"},
+				{name: "mset", j: j, key: k2, val: emptyB}, {name: "mhas", j: j, key: k2}, {name: "mlen", j: j},
+				{name: "mclr", j: j, key: k1}, {name: "mhas", j: j, key: k1}, {name: "mhas", j: j, key: k2}, {name: "enc"}}
+		case vschema.Repeated:
+			script = []*rop{{name: "lapp", j: j, val: nilB}, {name: "llen", j: j}, {name: "lget", j: j, i: 0}, {name: "has", j: j},
+				{name: "range"}, {name: "enc"}, {name: "lapp", j: j, val: emptyB}, {name: "lset", j: j, i: 0, val: emptyB},
+				{name: "lget", j: j, i: 0}, {name: "llen", j: j}, {name: "enc"}}
+		default:
+			script = []*rop{{name: "set", j: j, val: nilB}, {name: "has", j: j}, {name: "get", j: j}, {name: "getter", j: j}, {name: "range"}, {name: "enc"},
+				{name: "set", j: j, val: emptyB}, {name: "has", j: j}, {name: "get", j: j}, {name: "range"}, {name: "enc"}}
+			if f.Shape == vschema.Oneof {
+				script = append(script, &rop{name: "which", j: f.Group})
+			}
+		}
+		init := vval.Empty(t.S, 0)
+		hr := &histRun{b: b, t: t, gt: gt, emit: modelOK}
+		if p, pm := guard(func() {
+			hr.run(init, len(script), func(_ *vval.Val, k int) *rop { return script[k] })
+		}); p {
+			b.Violate("HARNESS", "history-panic", pm, hr.replay(init))
+		}
+		b.Count("bytes_container_histories")
+	}
+}
